@@ -1360,3 +1360,81 @@ def kfifo_swing_expected(ctx):
                           "the CAS on %s at line %d expects '%s' (sources: %s), which is not a snapshot of %s: this swing can never succeed; if it is the helping "
                           "swing, every other thread spins until the stalled owner of the half-finished append finishes (not lock-free)" % (
                               fld, fn.nodes[c_]["l"], fn.expr(exp), ", ".join(sorted(s_)), fld), fn.where(c_), fn=fn)
+
+
+def destructor_walks(ctx):
+    """OWN.destructor#list-walk: the destructors of the node-based queues are executed on lists of 1..4 nodes (finite execution of a pure pointer
+    walk, rules/walk.py): every node is released exactly once, the link of a node is never read after the node was released, and where the
+    elements live in the node and are not destroyed by the node's own destructor (k-FIFO segments) they are destroyed before the node goes."""
+    from .walk import ListWalk, Stuck
+    rid = "OWN.destructor"
+    ctx.rule(rid, "queue / node destructors destroy exactly the elements still owned: ranges bounded by the container's own counters; the list-walking "
+                  "destructors, executed on lists of 1..4 nodes, release every node exactly once, never read a link through a released node, and drain "
+                  "a segment's remaining items before releasing it")
+    table = [
+        (X + "michael_scott_queue::~michael_scott_queue", "_head", ()),
+        (X + "ramalhete_queue::~ramalhete_queue", "_head", ()),
+        (X + "nikolaev_queue::~nikolaev_queue", "_head", ()),
+        (X + "kirsch_kfifo_queue::~kirsch_kfifo_queue", "head_", ("delete_remaining_items",)),
+    ]
+    for pat, head, drains in table:
+        for fn in flow._shapes(ctx, pat):
+            bad = None
+            try:
+                for n_ in range(1, 5):
+                    w = ListWalk(fn, n_, head_field=head)
+                    released, drained, order = [], set(), []
+
+                    def on_event(w_, e, released=released, drained=drained):
+                        n = fn.nodes[e]
+                        leaf = n.get("callee", "").split("::")[-1] if n["k"] == "call" else None
+                        if n["k"] == "delete" or leaf in ("release_segment",):
+                            k = fn.kids(e)
+                            v = w_.ev(k[-1])
+                            released.append(v)
+                            w_.freed.add(v)
+                        elif leaf in drains:
+                            k = fn.kids(e)
+                            v = w_.ev(k[0])
+                            if v in w_.freed:
+                                w_.read_after_free.append(v)
+                            drained.add(v)
+                    w.run(lambda f, e: False, on_event=on_event)
+                    if w.read_after_free:
+                        bad = "on a list of %d nodes node #%d is accessed after it was released" % (n_, w.read_after_free[0])
+                    elif sorted(released) != list(range(1, n_ + 1)):
+                        bad = "on a list of %d nodes the destructor releases nodes %s (every node 1..%d must be released exactly once)" % (n_, released, n_)
+                    elif drains and drained != set(range(1, n_ + 1)):
+                        bad = "on a list of %d nodes the remaining items of nodes %s are not destroyed" % (n_, sorted(set(range(1, n_ + 1)) - drained))
+                    if bad:
+                        break
+            except Stuck as ex:
+                ctx.broken.append("%s: destructor walk not executable (%s)" % (pat, ex))
+                continue
+            ctx.exhaustive[rid + "#list-walk"] = True
+            ctx.check(bad is None, rid, pat + "#list-walk", "lists of 1..4 nodes: every node released exactly once, no link read after release" +
+                      (", items drained before release" if drains else ""),
+                      "%s: nodes / elements are leaked, freed twice or read after free when the queue is destroyed" % bad, fn.where(), fn=fn)
+    # bounded k-FIFO: every slot of the ring is visited
+    pat = X + "kirsch_bounded_kfifo_queue::~kirsch_bounded_kfifo_queue"
+    for fn in flow._shapes(ctx, pat):
+        dels = flow.find(fn, call("delete_value"))
+        bad = None
+        try:
+            from .evalx import run_until
+            for size in (1, 2, 5):
+                seen = []
+
+                def on_event(f, e, env, seen=seen):
+                    if e in dels:
+                        idx = [evalx(f, x, env) for x in f.subtree(e) if f.nodes[x]["k"] in ("subscript", "index")]
+                        seen.append(env.get("i"))
+                env, stop = run_until(fn, {"field:_queue_size": size, "this._queue_size": size, "_queue_size": size}, lambda f, e: False, on_event=on_event)
+                if len(seen) != size or len(set(seen)) != size:
+                    bad = "ring of %d slots: delete_value applied %d times (indices %s)" % (size, len(seen), seen)
+                    break
+        except Unknown as ex:
+            ctx.broken.append("%s: destructor loop not executable (%s)" % (pat, ex))
+            continue
+        ctx.check(bad is None and bool(dels), rid, pat + "#all-slots", "every slot of the ring (sizes 1, 2, 5) is handed to delete_value exactly once",
+                  "%s: stored elements are leaked or destroyed twice when the queue is destroyed" % (bad or "no delete_value in the destructor"), fn.where(), fn=fn)
